@@ -1433,6 +1433,12 @@ def features(case, obs):
         d = shell_chain_with_args(p, defs)
         if d:
             f.add('shell-command symbol referenced with additional arguments, chain depth %d' % min(d, 4))
+    txt = json.dumps(case)
+    for key, label in (('"runt"', 'program as transformer (run)'), ('"out-run"', 'program as text matcher (run)'),
+                       ('"file-run"', 'program as file matcher (run)'), ('"out-from"', 'stdout/stderr -from PROGRAM'),
+                       ('"exit-code-from"', 'exit-code -from PROGRAM')):
+        if key in txt:
+            f.add(label)
     late = late_definitions(case)
     if late:
         f.add('definition in the middle of a phase (after a non-definition, or outside [setup])')
